@@ -49,7 +49,8 @@ def strategy(tier: str) -> Any:
     r = st.integers(0, 30)
     step = st.tuples(st.integers(0, 2), st.sampled_from(OPS), r, r).map(list)
     return st.fixed_dictionaries({
-        'backend': st.sampled_from(['dict', 'dict', 'maildir']),
+        'backend': st.sampled_from(['dict', 'dict', 'dict', 'maildir',
+                                    'maildir', 'maildir-threads']),
         'steps': st.lists(step, min_size=2, max_size=30),
     })
 
@@ -79,7 +80,7 @@ def run_case(case: dict[str, Any]) -> CaseOut:
         sim = dict_sim()
     else:
         tmp = tempfile.mkdtemp(prefix='c17-')
-        sim = maildir_sim(tmp)
+        sim = maildir_sim(tmp, threads=backend == 'maildir-threads')
     nt = False
     try:
         setup = Client(sim, prefix=b's')
